@@ -196,6 +196,12 @@ pub struct OVal {
 
 pub type MOVal = (u8, u8);
 
+/// model of `OVal::bump`
+pub fn bump_m(v: MOVal, d: u8) -> MOVal {
+    let key = if d >= 2 { (v.0 + 1) % 3 } else { v.0 };
+    (key, v.1.wrapping_add(d) % 3)
+}
+
 impl OVal {
     pub fn new(key: u8, payload: u8) -> Self {
         OVal { key, payload, serial: alloc(false) }
@@ -207,9 +213,13 @@ impl OVal {
     pub fn from_m(m: MOVal) -> Self {
         OVal::new(m.0, m.1)
     }
+    /// The in-place mutation used by update closures: d >= 2 also changes the key (and with it
+    /// the hash), d < 2 only the payload.
     pub fn bump(&mut self, d: u8) {
         touch(self.serial, "update");
-        self.payload = self.payload.wrapping_add(d);
+        let (k, p) = bump_m((self.key, self.payload), d);
+        self.key = k;
+        self.payload = p;
     }
 }
 impl Default for OVal {
